@@ -696,15 +696,33 @@ var aggTmpl = []string{
 	"COUNT(*)", "COUNT(%a.v)", "COUNT(DISTINCT %a.k)", "SUM(%a.v)", "AVG(%a.v)", "MIN(%a.s)", "MAX(%a.v)", "MEDIAN(%a.v)",
 	"LISTAGG(%a.s, ',')", "LISTAGG(DISTINCT %a.g, '|') WITHIN GROUP (ORDER BY %a.g)", "JSON_AGG(%a.v)", "STDEV(%a.v)", "VAR(%a.v)",
 	"usum(%a.v)", "usum(%a.v, 2)", "SUM(%a.v + %a.k)", "SUM(usq(%a.v))", "SUM(DISTINCT %a.v)", "MAX(%a.d)",
+	// ORDER BY expressions (not bare columns) inside the aggregate: evaluated as additional columns of a per-group view
+	"LISTAGG(%a.s, ',') WITHIN GROUP (ORDER BY %a.v || 'x')", "LISTAGG(%a.g, '') WITHIN GROUP (ORDER BY %a.v * -1, %a.id)",
+	"JSON_AGG(%a.v) WITHIN GROUP (ORDER BY %a.s || %a.g DESC)", "JSON_AGG(DISTINCT %a.k) WITHIN GROUP (ORDER BY %a.k % 3, %a.k)",
+	"LISTAGG(%a.s, ',') WITHIN GROUP (ORDER BY usq(%a.v), %a.id)", "LISTAGG(DISTINCT %a.s, '|') WITHIN GROUP (ORDER BY UPPER(%a.s) DESC NULLS LAST)",
+	"LISTAGG(%a.s, '|') WITHIN GROUP (ORDER BY (SELECT COUNT(*) FROM %S c WHERE c.k = %a.k % 5), %a.id)", "JSON_AGG(%a.s) WITHIN GROUP (ORDER BY LEN(%a.s), %a.s)",
+	"SUM(%a.v * %a.k + 1)", "COUNT(DISTINCT %a.v % 4)", "usum(%a.v + %a.k, 3)", "MEDIAN(COALESCE(%a.v, 0) * 2)", "LISTAGG(%a.s || '-' || %a.g, ';')",
+}
+
+// list functions sorted by an expression: every group sorts its own view by an additional column
+var listOrderAggs = []string{
+	"LISTAGG(%a.s, ',') WITHIN GROUP (ORDER BY %a.v || 'x')", "LISTAGG(%a.g, '') WITHIN GROUP (ORDER BY %a.v * -1, %a.id)",
+	"JSON_AGG(%a.v) WITHIN GROUP (ORDER BY %a.s || %a.g DESC)", "JSON_AGG(DISTINCT %a.k) WITHIN GROUP (ORDER BY %a.k % 3, %a.k)",
+	"LISTAGG(%a.s, ',') WITHIN GROUP (ORDER BY usq(%a.v), %a.id)", "LISTAGG(DISTINCT %a.s, '|') WITHIN GROUP (ORDER BY UPPER(%a.s) DESC NULLS LAST)",
+	"LISTAGG(%a.s, '|') WITHIN GROUP (ORDER BY (SELECT COUNT(*) FROM %S c WHERE c.k = %a.k % 5), %a.id)", "JSON_AGG(%a.s) WITHIN GROUP (ORDER BY LEN(%a.s), %a.s)",
+	"LISTAGG(%a.id, ',') WITHIN GROUP (ORDER BY %a.id % 7, MD5(%a.s))", "JSON_AGG(%a.id) WITHIN GROUP (ORDER BY COALESCE(%a.v, 0) - %a.k DESC, %a.id)",
 }
 
 func (x *g) aggs(a string) []string {
 	n := x.rng("nAggs", 1, 3)
 	var out []string
 	for i := 0; i < n; i++ {
-		e := sub(x.pick("agg", aggTmpl), a, "")
+		e := sub(x.pick("agg", aggTmpl), a, x.small.ref())
 		if strings.Contains(e, "usum") || strings.Contains(e, "usq") {
 			x.op("udf")
+		}
+		if strings.Contains(e, "WITHIN GROUP") && !strings.HasSuffix(e, "(ORDER BY "+a+".g)") {
+			x.op("agg_order_by_expr")
 		}
 		out = append(out, e)
 	}
@@ -726,6 +744,21 @@ func (x *g) qGroup() string {
 	}
 	x.op("groupby")
 	keys := [][]string{{"a.g"}, {"a.k"}, {"a.g", "a.k"}, {"a.v % 3"}, {"YEAR(a.d)", "a.g"}, {"a.s"}, {"UPPER(a.g)"}}[fw.Uniform(x.t, "groupKeys", 7)]
+	forceListOrder := false
+	if x.pct("manyGroups", 50) {
+		// >= 160 groups: the select list, HAVING and ORDER BY of the grouped view are evaluated per group by
+		// several goroutines; with several rows per group the per-group work (sorting a per-group view by an
+		// expression) takes long enough to overlap
+		x.op("many_groups")
+		for _, o := range x.big {
+			if o.N > t.N {
+				t = o
+			}
+		}
+		m := x.rng("groupModulus", 160, 160+t.N/4)
+		keys = [][]string{{fmt.Sprintf("a.id %% %d", m)}, {fmt.Sprintf("a.id %% %d", m)}, {"a.id"}, {"a.k", "a.s"}, {"a.s", "a.g", "a.k"}, {"a.id", "a.g"}, {"a.v", "a.s", "a.k"}}[fw.Uniform(x.t, "manyGroupKeys", 7)]
+		forceListOrder = x.pct("forceListOrder", 60)
+	}
 	if x.takeFail("groupkey") {
 		keys = []string{x.failExpr("a")}
 	}
@@ -734,10 +767,22 @@ func (x *g) qGroup() string {
 		// only a plain column key can be selected next to the aggregates
 		if !strings.ContainsAny(k, "(% ") {
 			fs = append(fs, fmt.Sprintf("%s AS k%d", k, i+1))
+			if x.pct("computedKeyField", 50) {
+				// a computed field of a group key next to the aggregates
+				x.op("computed_key_field")
+				fs = append(fs, fmt.Sprintf("%s AS kc%d", x.pick("computedKey", []string{k + " || 'a'", "UPPER(STRING(" + k + "))", "COALESCE(STRING(" + k + "), '-') || '!'"}), i+1))
+			}
 		}
+	}
+	if x.pct("computedConstField", 30) {
+		fs = append(fs, x.pick("constField", []string{"1 + 1 AS two", "@n * 2 AS n2", "UPPER('x') AS ux", "NOW() AS ts"}))
 	}
 	for i, e := range x.aggs("a") {
 		fs = append(fs, fmt.Sprintf("%s AS a%d", e, i+1))
+	}
+	if forceListOrder {
+		x.op("agg_order_by_expr")
+		fs = append(fs, sub(x.pick("listOrderAgg", listOrderAggs), "a", x.small.ref())+" AS lo")
 	}
 	q := "SELECT " + strings.Join(fs, ", ") + " FROM " + t.ref() + " a" + x.where("a", 40) + " GROUP BY " + strings.Join(keys, ", ")
 	if x.takeFail("having") {
@@ -745,7 +790,7 @@ func (x *g) qGroup() string {
 		q += " HAVING SUM(" + x.failExpr("a") + ") > -1000000"
 	} else if !x.noFilter && x.pct("having", 35) {
 		x.op("having")
-		q += " HAVING " + x.pick("havingPred", []string{"COUNT(*) > 1", "SUM(a.v) > 10", "MAX(a.v) IS NOT NULL", "COUNT(DISTINCT a.k) >= 2"})
+		q += " HAVING " + x.pick("havingPred", []string{"COUNT(*) > 1", "SUM(a.v) > 10", "MAX(a.v) IS NOT NULL", "COUNT(DISTINCT a.k) >= 2", "COUNT(*) >= 1", "LISTAGG(a.s, ',') WITHIN GROUP (ORDER BY a.v || 'x') IS NOT NULL", "SUM(a.v * 2 + a.k) > -100000"})
 	}
 	if x.pct("groupOrder", 40) {
 		x.op("orderby")
@@ -811,7 +856,7 @@ func (x *g) anaCall(a string) string {
 	var parts []string
 	if x.takeFail("anapartition") {
 		parts = append(parts, "PARTITION BY "+x.failExpr(a))
-	} else if pk := x.pick("anaPartition", []string{"", "%a.g", "%a.g", "%a.k", "%a.g, %a.k", "%a.v % 3"}); pk != "" {
+	} else if pk := x.pick("anaPartition", []string{"", "%a.g", "%a.g", "%a.k", "%a.g, %a.k", "%a.v % 3", "UPPER(%a.g)", "%a.k % 4, %a.g", "%a.s || %a.g", "%a.id % 97"}); pk != "" {
 		parts = append(parts, "PARTITION BY "+sub(pk, a, ""))
 	}
 	name := fn[:strings.Index(fn, "(")]
@@ -821,7 +866,7 @@ func (x *g) anaCall(a string) string {
 	ordered := false
 	if !star && (needOrder || x.pct("anaOrder", 50)) {
 		ordered = true
-		ok := x.pick("anaOrderKey", []string{"%a.v", "%a.v DESC", "%a.s, %a.id", "%a.d DESC NULLS LAST", "%a.v NULLS LAST, %a.id DESC", "%a.id"})
+		ok := x.pick("anaOrderKey", []string{"%a.v", "%a.v DESC", "%a.s, %a.id", "%a.d DESC NULLS LAST", "%a.v NULLS LAST, %a.id DESC", "%a.id", "%a.v * -1, %a.id", "%a.v || 'x'", "UPPER(%a.s) DESC, %a.id", "usq(%a.v), %a.id", "LEN(%a.s), %a.id DESC"})
 		parts = append(parts, "ORDER BY "+sub(ok, a, ""))
 	}
 	frameable := map[string]bool{"FIRST_VALUE": true, "LAST_VALUE": true, "NTH_VALUE": true, "COUNT": true, "SUM": true, "AVG": true, "MIN": true, "MAX": true, "MEDIAN": true, "usum": true}[name]
@@ -868,6 +913,10 @@ func (x *g) qSubquery() string {
 	}
 	x.op("scalar_subquery")
 	t2 := x.bigTable("subTable2")
+	if t.N*t2.N > 600000 {
+		// the uncorrelated subquery is evaluated again for every outer record
+		t2 = x.small
+	}
 	return "SELECT a.id, (SELECT COUNT(*) FROM " + x.small.ref() + " c WHERE c.k = a.k) AS n1, " + x.any("a") + " AS c1 FROM " + t.ref() + " a WHERE a.v > (SELECT AVG(b.v) FROM " + t2.ref() + " b)" + x.orderLimit("a", 20, "a.id")
 }
 
@@ -898,8 +947,8 @@ func (x *g) qSmallOuter() string {
 	case 5:
 		// two levels: the innermost query refers to both outer records
 		x.op("nested_subquery")
-		big2 := x.bigTable("innerBig2")
-		return "SELECT c.id, (SELECT COUNT(*) FROM " + b + " WHERE b.k = c.k AND b.v > (SELECT AVG(e.v) FROM " + big2.ref() + " e WHERE e.g = b.g AND e.k = c.k)) AS n FROM " + c + " WHERE c.id <= 6"
+		// (the innermost table is the small one: the cost is rows(c) x rows(b) x rows(e))
+		return "SELECT c.id, (SELECT COUNT(*) FROM " + b + " WHERE b.k = c.k AND b.v > (SELECT AVG(e.v) FROM " + x.small.ref() + " e WHERE e.k = b.k % 5 AND e.id <> c.id)) AS n FROM " + c + " WHERE c.id <= 6"
 	}
 	x.op("udf_body")
 	return "SELECT c.id, ucnt(c.k) AS n, ucur(c.id) AS m FROM " + c
@@ -1134,13 +1183,15 @@ func bigN(t *rapid.T, file bool) int {
 	if file {
 		lo = 301 // the loader's resize branch needs more than 300 records
 	}
-	switch fw.Weighted(t, "sizeClass", []int{60, 25, 15}) {
+	switch fw.Weighted(t, "sizeClass", []int{53, 24, 18, 5}) {
 	case 0:
 		return fw.Range(t, "n", lo, 340)
 	case 1:
 		return fw.Range(t, "nMid", 341, 500)
+	case 2:
+		return fw.Range(t, "nLarge", 640, 900)
 	}
-	return fw.Range(t, "nLarge", 640, 900)
+	return fw.Range(t, "nHuge", 1200, 2000)
 }
 
 func genTables(t *rapid.T, filePct int, formats []string) (big []tableSpec, small tableSpec) {
